@@ -89,6 +89,12 @@ def _surf_specs(tier):
         for i, fl in enumerate(F.surf6_classes()):
             for al in ("gen", "lat", "momc"):
                 add(f"tri6c#{i}:{al}", SURF_ALPHA[al][:6], fl)
+    # a small unit of length (coordinates x 2^-20, exact in binary): operators must scale with the right power, no
+    # absolute threshold may act on lengths or areas
+    for n in (4, 5):
+        for i, fl in enumerate(F.surf_enum(n)):
+            if i % 5 == 0:
+                add(f"tri{n}#{i}:gen*2^-20", [[c / 1048576 for c in p] for p in SURF_ALPHA["gen"][:n]], fl, tiny=1)
     # an isolated LAST vertex (index n, used by no face)
     for n in (3, 4):
         for i, fl in enumerate(F.surf_enum(n)):
